@@ -142,9 +142,13 @@ let parse_line (line : string) : int * sop =
 let ninst = 8
 type minst = { mutable st : state option; mutable hist : op list (* most recent first *);
                mutable saved : (state * op list) option;
-               mutable rs : (z * raction list) list (* re-entrant scripts per callback id *) }
+               mutable rs : (z * raction list) list (* re-entrant scripts per callback id *);
+               (* registrations and user data as the SCRIPT has set them, including what callbacks
+                  did from inside (maintained by the ?r twin check) *)
+               mutable rtabv : (field -> z); mutable rud : z }
 
-let fresh_insts () = Array.init ninst (fun _ -> { st = None; hist = []; saved = None; rs = [] })
+let fresh_insts () = Array.init ninst (fun _ -> { st = None; hist = []; saved = None; rs = [];
+                                                  rtabv = (fun _ -> Z0); rud = Z0 })
 let reent_step : (rtab -> state -> op -> state * event list) ref = ref step_reent_u
 
 (* executes one script op on the model; returns (ret, events as (inst, event)) *)
@@ -152,8 +156,9 @@ let model_exec (stepf : state -> op -> state * event list) (insts : minst array)
   : int * (int * event) list =
   let m = insts.(k) in
   match o with
-  | SInit _ -> m.st <- Some init_state; m.hist <- [OInit]; (0, [])
-  | SNew ok -> if ok then (m.st <- Some init_state; m.hist <- [OInit]; (1, []))
+  | SInit _ -> m.st <- Some init_state; m.hist <- [OInit]; m.rtabv <- (fun _ -> Z0); m.rud <- Z0; (0, [])
+  | SNew ok -> m.rtabv <- (fun _ -> Z0); m.rud <- Z0;
+    if ok then (m.st <- Some init_state; m.hist <- [OInit]; (1, []))
     else (m.st <- None; m.hist <- []; (0, []))
   | SFree -> m.st <- None; m.hist <- []; (0, [])
   | SSave -> (match m.st with Some s -> m.saved <- Some (s, m.hist) | None -> ()); (0, [])
@@ -166,6 +171,10 @@ let model_exec (stepf : state -> op -> state * event list) (insts : minst array)
     (match m.st with
      | None -> failwith "script applies an op to a NULL instance"
      | Some s ->
+       (match op with
+        | ORegister (f, id) -> let old = m.rtabv in m.rtabv <- (fun x -> if field_idx x = field_idx f then id else old x)
+        | OSetUD u -> m.rud <- u
+        | _ -> ());
        let (s', evs) = if m.rs = [] then stepf s op else !reent_step (rtab_of m.rs) s op in
        m.st <- Some s';
        m.hist <- op :: m.hist;
@@ -231,6 +240,7 @@ let check_mode flavor stepf prop script impl =
   let n_ops = ref 0 and n_div = ref 0 and n_mon = ref 0 and n_obs = ref 0 and n_scripts = ref 0 in
   (* twin-run bookkeeping: per instance, the implementation's events of its last op (instance
      index blanked), that op, and the implementation's settings before it *)
+  let last_raw = Array.make ninst [] in
   let last_evs = Array.make ninst [] and last_op = Array.make ninst None
   and last_before = Array.make ninst None and last_mbefore = Array.make ninst None in
   let n_twin = ref 0 and n_badgen = ref 0 and script_invalid = ref false in
@@ -247,6 +257,19 @@ let check_mode flavor stepf prop script impl =
       script_invalid := true in
     if !script_invalid then ()
     else if not (ialive.(i) && ialive.(j)) then badgen "instance-not-alive"
+    else if kind = "?r" then begin
+      (* re-entrant registration: instance j has every callback registered and no script; what
+         instance i must have been notified of is the replay (extracted from Reent.v) of j's
+         notifications through i's registration table and user data as they evolve under the
+         scripts of i's callbacks.  Both sides come from the library: decoding cancels out. *)
+      let mi = (!insts).(i) in
+      let full = List.filter_map (fun l -> let (x, e) = event_of_string l in if x = j then Some e else None) last_raw.(j) in
+      let got = List.filter_map (fun l -> let (x, e) = event_of_string l in if x = i then Some e else None) last_raw.(i) in
+      let (exp, (tab', ud')) = replay (rtab_of mi.rs) mi.rtabv mi.rud full in
+      mi.rtabv <- tab'; mi.rud <- ud';
+      let se l = String.concat " ;; " (List.map (fun e -> str_event 0 e) l) in
+      if se exp <> se got then fail ("reentrant-callbacks:expected " ^ String.escaped (se exp) ^ " got " ^ String.escaped (se got))
+    end
     else begin
       (* hypotheses of the relational theorems, evaluated with the extracted predicates *)
       (match kind with
@@ -342,6 +365,7 @@ let check_mode flavor stepf prop script impl =
          let (mret, mevs) = model_exec stepf !insts k o in
          let (ies, ids, iret) = read_impl_op () in
          last_evs.(k) <- List.map norm_ev ies;
+         last_raw.(k) <- ies;
          if not !impl_truncated then begin
            (* apply the implementation's deltas *)
            List.iter (fun l ->
